@@ -183,15 +183,12 @@ func c06Iteration(c *Ctx, v *sxView, loop *LoopRec, values types.Object, h func(
 		*keyBad = "the in-loop panic is not guarded by exactly the failed string assertion of the key"
 		return ""
 	}
-	pr, ok := conds[0].T.(TProj)
-	var as TAssert
-	if ok {
-		as, ok = pr.X.(TAssert)
-	}
-	if !ok || pr.K != 1 {
-		*keyBad = "the key is not obtained by a comma-ok assertion"
+	opnd, asT, ok := kindTestOf(conds[0].T)
+	if !ok || asT == nil {
+		*keyBad = "the key is not obtained by a comma-ok assertion or type switch"
 		return ""
 	}
+	as := TAssert{X: opnd, To: asT}
 	if b, isB := as.To.(*types.Basic); !isB || b.Kind() != types.String {
 		*keyBad = "the key is asserted to " + shortType(as.To) + ", not string"
 		return ""
@@ -217,7 +214,7 @@ func c06Iteration(c *Ctx, v *sxView, loop *LoopRec, values types.Object, h func(
 		return "a pair is not applied by exactly one map assignment"
 	}
 	lhs, ok := effs[0].LHS.(TIndex)
-	if !ok || !v.isRecvSpine(lhs.X) || !sameTerm(lhs.I, TProj{as, 0}) {
+	if !ok || !v.isRecvSpine(lhs.X) || !(sameTerm(lhs.I, TProj{as, 0}) || sameTerm(lhs.I, as)) {
 		return "the assignment target is not spine[asserted key]"
 	}
 	pv, ok := effs[0].RHS.(TCall)
